@@ -491,6 +491,29 @@ def _make_cache(col, rule="C07.R5"):
                     okc = True
             if S.is_call_of(cnt, ("attr", ("glob", "dict"), "fromkeys")):
                 okc = False
+    # the labels `name<sep>k` are longer than the names: the array they are written into must not inherit a fixed item width
+    def _is_obj(t):
+        return t in (("glob", "object"), ("const", "'object'"), ("const", "'O'"), ("const", '"object"'), ("const", '"O"'))
+    for r in rets:
+        names = r.value[1][2]
+        for nm in S.alts(names):
+            kws = dict(nm[3]) if nm[:1] == ("call",) else {}
+            dt = kws.get("dtype")
+            f = nm[1] if nm[:1] == ("call",) else None
+            fname = f[2] if f and f[:1] == ("attr",) else f[1] if f and f[:1] == ("glob",) else None
+            mentions_col = any(x == col_t for x in S.subterms(nm))
+            if nm[:1] in (("acc",), ("list",)) or (dt is not None and _is_obj(dt)) or (fname == "astype" and nm[2] and _is_obj(nm[2][0])):
+                verdict = True
+            elif nm[:1] == ("call",) and (
+                    (fname in ("copy", "array", "asarray", "zeros_like", "empty_like", "full_like", "ones_like") and mentions_col and dt is None)
+                    or (dt is not None and (dt == ("glob", "str") or (dt[:1] == ("const",) and dt[1].strip("'\"")[:1] in ("U", "S", "<", ">"))
+                                            or dt == ("attr", col_t, "dtype")))):
+                verdict = False
+            else:
+                raise AnalysisError(f"Table._make_cache: the array of unique labels `{S.show(nm)[:80]}` is not a recognised construction (cannot decide)")
+            col.add(rule, "Table._make_cache#labels-not-width-limited", verdict, sx.loc(r),
+                    "the unique labels go into an object array (or a list): an array that inherits the item width of the index column truncates "
+                    "`name<sep>k` back to a prefix", S.show(nm)[:100])
     col.add(rule, "Table._make_cache#scans-current-index-column", okd, sx.loc(sx.fn),
             "the cache is built from self._data[self._index]: for every row, unconditionally, (name, occurrence) maps to the row's position", "")
     col.add(rule, "Table._make_cache#first-occurrence-is-0", ok0, sx.loc(sx.fn),
@@ -502,8 +525,13 @@ def _make_cache(col, rule="C07.R5"):
 
 
 def check(col: Collector):
-    _invalidate_on_write(col)
-    _get_set_agreement(col)
-    _parser(col)
-    _entry_points(col)
-    _make_cache(col)
+    with col.rule():
+        _invalidate_on_write(col)
+    with col.rule():
+        _get_set_agreement(col)
+    with col.rule():
+        _parser(col)
+    with col.rule():
+        _entry_points(col)
+    with col.rule():
+        _make_cache(col)
